@@ -80,13 +80,13 @@ type heightWatch struct {
 	mu     sync.Mutex
 	h      int64
 	change time.Time
-	sig    chan struct{}
+	next   chan struct{} // closed at the next height change
 }
 
 // attach subscribes to the node's NewRoundStep events (fired synchronously by
 // the consensus goroutine on every step), so a height change is seen when it happens.
 func (w *heightWatch) attach(n *Node) {
-	w.h, w.change, w.sig = n.Height(), time.Now(), make(chan struct{}, 1)
+	w.h, w.change, w.next = n.Height(), time.Now(), make(chan struct{})
 	types.AddListenerForEvent(n.evsw, "verif-height", types.EventStringNewRoundStep(), func(ed types.TMEventData) {
 		rs, ok := ed.(types.EventDataRoundState)
 		if !ok {
@@ -95,10 +95,8 @@ func (w *heightWatch) attach(n *Node) {
 		w.mu.Lock()
 		if rs.Height != w.h {
 			w.h, w.change = rs.Height, time.Now()
-			select {
-			case w.sig <- struct{}{}:
-			default:
-			}
+			close(w.next)
+			w.next = make(chan struct{})
 		}
 		w.mu.Unlock()
 	})
@@ -106,12 +104,11 @@ func (w *heightWatch) attach(n *Node) {
 
 // waitChange waits for the next height change.
 func (w *heightWatch) waitChange(d time.Duration) bool {
+	w.mu.Lock()
+	ch := w.next
+	w.mu.Unlock()
 	select {
-	case <-w.sig:
-	default:
-	}
-	select {
-	case <-w.sig:
+	case <-ch:
 		return true
 	case <-time.After(d):
 		return false
@@ -178,14 +175,27 @@ func WorkerMain() {
 	for {
 		line, err := in.ReadBytes('\n')
 		if len(line) > 1 {
-			var c Case
-			if e := json.Unmarshal(line, &c); e != nil {
-				fmt.Fprintf(os.Stderr, "c08net worker: bad case: %v\n", e)
+			// one line = one batch: its cases run concurrently against the node, each with
+			// its own attacker switch (a batch of one is the plain sequential mode)
+			var cs []*Case
+			if e := json.Unmarshal(line, &cs); e != nil {
+				fmt.Fprintf(os.Stderr, "c08net worker: bad batch: %v\n", e)
 				os.Exit(3)
 			}
-			fmt.Fprintf(os.Stderr, "##C08NET %d %s\n", c.ID, c.Key)
-			o := runCase(node, hw, cfg, &c)
-			b, _ := json.Marshal(o)
+			for _, c := range cs {
+				fmt.Fprintf(os.Stderr, "##C08NET %d %s\n", c.ID, c.Key)
+			}
+			outs := make([]*Outcome, len(cs))
+			var wg sync.WaitGroup
+			for i := range cs {
+				wg.Add(1)
+				go func(i int) {
+					defer wg.Done()
+					outs[i] = runCase(node, hw, cfg, cs[i])
+				}(i)
+			}
+			wg.Wait()
+			b, _ := json.Marshal(outs)
 			out.Write(b)
 			out.WriteByte('\n')
 			out.Flush()
@@ -295,10 +305,6 @@ func runCase(n *Node, hw *heightWatch, cfg interface{}, c *Case) (o *Outcome) {
 		o.Hend = n.Height()
 		o.Recycle = o.Hend > recycleHeight
 	}()
-	// drain the probe
-	for len(n.Probe.got) > 0 {
-		<-n.Probe.got
-	}
 	att := newAttackerSwitch(n.P2PConf, fmt.Sprintf("127.0.0.1:%d", 20000+c.ID%20000))
 	defer func() {
 		att.stop()
@@ -347,6 +353,7 @@ func runCase(n *Node, hw *heightWatch, cfg interface{}, c *Case) (o *Outcome) {
 	binary.BigEndian.PutUint64(nonce, uint64(c.ID))
 	binary.BigEndian.PutUint64(nonce[8:], uint64(time.Now().UnixNano()))
 	script = append(script, wireMsg{probeChannel, nonce})
+	arrived := n.Probe.expect(nonce)
 	for _, m := range script {
 		att.Peer.Send(m.Ch, rawValue(m.Bz))
 	}
@@ -355,10 +362,8 @@ func runCase(n *Node, hw *heightWatch, cfg interface{}, c *Case) (o *Outcome) {
 	delivered := false
 	for !delivered {
 		select {
-		case bz := <-n.Probe.got:
-			if string(bz) == string(nonce) {
-				delivered = true
-			}
+		case <-arrived:
+			delivered = true
 		case <-time.After(5 * time.Millisecond):
 			if att.nodeSidePeer(n) == nil {
 				delivered = true
